@@ -76,6 +76,11 @@ def random_path(rng, bbox, nverts):
             n = max(abs(b[0] - a[0]), abs(b[1] - a[1]))
             sx = (b[0] > a[0]) - (b[0] < a[0]); sy = (b[1] > a[1]) - (b[1] < a[1])
             steps += [(a[0] + k * sx, a[1] + k * sy) for k in range(1, n + 1)]
+        # two diagonal unit steps of opposite slope cross in the middle of a lattice square without sharing a lattice
+        # point: such a path is not simple either
+        mids = [(a[0] + b[0], a[1] + b[1]) for a, b in zip(steps, steps[1:]) if a[0] != b[0] and a[1] != b[1]]
+        if len(set(mids)) != len(mids):
+            continue
         if len(set(steps)) == len(steps) and all(x0 - 6 <= p[0] <= x1 + 6 and y0 - 6 <= p[1] <= y1 + 6 for p in steps):
             return [list(p) for p in pts]
     return [[x0, y0], [x1, y1]] if (x1 - x0) == (y1 - y0) else [[x0, y0], [x1, y0]]
